@@ -418,6 +418,9 @@ func genCall(g *lp.Gen, s *sim, inOpen bool) string {
 			p = lp.Hex(lp.Pattern(n, g.Intn(256)))
 		}
 		s.write([]int{n}, k)
+		for g.Chance(1, 8) { // interrupted attempts before the answer that counts
+			k = "eintr," + k
+		}
 		return fmt.Sprintf("write %s K=%s", p, k)
 	case r < 82:
 		m := g.PickInt(0, 1, 2, 2, 3, 3, 4, 6)
@@ -450,6 +453,9 @@ func genCall(g *lp.Gen, s *sim, inOpen bool) string {
 			k = "eagain"
 		}
 		s.write(sizes, k)
+		for g.Chance(1, 8) {
+			k = "eintr," + k
+		}
 		return strings.TrimSpace(fmt.Sprintf("writev %d %s", m, strings.Join(ps, " "))) + " K=" + k
 	default:
 		off := g.PickInt(0, 0, s.fsize, s.fsize/2, g.Intn(s.fsize+1))
@@ -658,6 +664,8 @@ type caseState struct {
 	fromOpen     bool // a backlog was created inside the open callback
 	dial         bool // registered through addDialer
 	hadBacklog   bool // the previous observation saw an open conn with a non-empty queue
+	edgeDue      bool  // ET: the kernel owes a writability report (ADD, or a refused/short write since the last one)
+	refSeen      int64 // v.Refusals at the last look
 	lines        []string // the op lines of the case so far (for the isolated re-run)
 	zeroWrites   int64
 	spin         int32
@@ -851,8 +859,12 @@ func (cs *caseState) doCall(cl *call) string {
 		// a call that would exceed the bound even after what the kernel takes directly must fail
 		// with the overflow error and close the connection
 		direct := 0
-		if len(pre.Items) == 0 && len(ans) > 0 && ans[0].Err == 0 {
-			direct = ans[0].N
+		fa := 0 // interrupted attempts are retried: the first other answer counts
+		for fa < len(ans) && ans[fa].Err == syscall.EINTR {
+			fa++
+		}
+		if len(pre.Items) == 0 && fa < len(ans) && ans[fa].Err == 0 {
+			direct = ans[fa].N
 			if direct > held {
 				direct = held
 			}
@@ -890,6 +902,10 @@ func (cs *caseState) kernelState() (reg bool, events uint32, disarmed bool) {
 				break
 			}
 		}
+	}
+	if cs.v.Refusals != cs.refSeen {
+		cs.refSeen = cs.v.Refusals
+		cs.edgeDue = true
 	}
 	return cs.v.Reg, cs.v.Events, cs.disarmIdx >= 0
 }
@@ -971,6 +987,11 @@ func (cs *caseState) state() string {
 				cs.mode, origin, len(st.Items), backlog, reg, events&syscall.EPOLLOUT != 0, disarmed, st.IsWAdded)
 		}
 	}
+	// ET: a backlog needs a writability report that is still due (EPOLLOUT is reported again only after
+	// the kernel refused or shortened a write)
+	if cs.mode == "et" && cs.registered && reg && !st.Closed && len(st.Items) > 0 && !cs.edgeDue {
+		orc("c04-et-lost-edge", "mode=et: open conn with %d queued items but no writability report is due (no EAGAIN / short write since the last reported EPOLLOUT): the backlog waits for an edge that never comes", len(st.Items))
+	}
 	if len(st.Items) == 0 {
 		cs.fromOpen = false
 	}
@@ -993,12 +1014,16 @@ func (cs *caseState) state() string {
 	cs.hadBacklog = !st.Closed && len(st.Items) > 0
 	// contents, not only sizes: the queued bytes (buffers + file ranges read back through the dup'ed fds)
 	// and, while open, the concatenation of the ranges the calls reported as accepted
+	edgeS := "-"
+	if cs.mode == "et" && reg && !st.Closed {
+		edgeS = strconv.Itoa(b(cs.edgeDue))
+	}
 	accS := "-"
 	if !st.Closed {
 		accS = fmt.Sprintf("%d:%d", len(cs.accepted), lp.Fnv(cs.accepted))
 	}
-	return fmt.Sprintf("closed=%d left=%d wl=[%s] pend=%d:%d acc=%s wadded=%d reg=%d kout=%d dis=%d ctl=[%s] wire=%d:%d onclose=%d wtimer=%d",
-		b(st.Closed), st.Left, strings.Join(items, ","), len(pending), lp.Fnv(pending), accS, b(st.IsWAdded), b(reg), b(reg && events&syscall.EPOLLOUT != 0), b(disarmed),
+	return fmt.Sprintf("closed=%d left=%d wl=[%s] pend=%d:%d acc=%s wadded=%d reg=%d kout=%d dis=%d edge=%s ctl=[%s] wire=%d:%d onclose=%d wtimer=%d",
+		b(st.Closed), st.Left, strings.Join(items, ","), len(pending), lp.Fnv(pending), accS, b(st.IsWAdded), b(reg), b(reg && events&syscall.EPOLLOUT != 0), b(disarmed), edgeS,
 		strings.Join(ctl, ","), len(wire), cs.wireHash, atomic.LoadInt64(&cs.closes), b(st.WTimer))
 }
 
@@ -1250,7 +1275,9 @@ func exec(e *lp.Exec) {
 				if cs.mode == "oneshot" {
 					cs.disarmIdx = len(cs.v.Ctl)
 				}
+				cs.refSeen = cs.v.Refusals
 				cs.v.Unlock()
+				cs.edgeDue = false // the connect event is the edge that ADD owed
 				if !cs.inject(en.epfd, []syscall.EpollEvent{{Fd: int32(cs.fd), Events: syscall.EPOLLOUT}}) {
 					delete(engines, cs.mode)
 					cs.hang("event loop did not come back from the connect event")
@@ -1263,6 +1290,12 @@ func exec(e *lp.Exec) {
 				continue
 			}
 			cs.registered = true
+			if !cs.dial {
+				cs.edgeDue = true // EPOLL_CTL_ADD reports the current readiness
+				cs.v.Lock()
+				cs.refSeen = cs.v.Refusals
+				cs.v.Unlock()
+			}
 			if len(cs.openCalls) > 0 {
 				e.Count("cases", "open-callback-writes")
 			}
@@ -1376,7 +1409,7 @@ func exec(e *lp.Exec) {
 			var evs uint32
 			deliv := ""
 			if reg && !st.Closed && !disarmed {
-				if strings.Contains(bits, "o") && events&syscall.EPOLLOUT != 0 {
+				if strings.Contains(bits, "o") && events&syscall.EPOLLOUT != 0 && (cs.mode != "et" || cs.edgeDue) {
 					evs |= syscall.EPOLLOUT
 					deliv += "o"
 				}
@@ -1393,13 +1426,15 @@ func exec(e *lp.Exec) {
 			raceRes := "-"
 			if evs != 0 {
 				before := cs.backlog()
+				if evs&syscall.EPOLLOUT != 0 && cs.mode == "et" {
+					cs.edgeDue = false // the report is consumed
+				}
 				cs.v.Lock()
 				if cs.mode == "oneshot" {
 					cs.disarmIdx = len(cs.v.Ctl)
 				}
 				cs.v.Script = ans
 				wireBefore := len(cs.v.Wire)
-				writesBefore := cs.v.Writes
 				if cb != nil && evs&syscall.EPOLLIN != 0 {
 					cs.v.Rq = append(cs.v.Rq, 0x55)
 					cs.cbCall = cb
@@ -1449,7 +1484,6 @@ func exec(e *lp.Exec) {
 				}
 				cs.v.Lock()
 				left := len(cs.v.Script)
-				calls := cs.v.Writes - writesBefore
 				cs.v.Script = nil
 				cs.v.Unlock()
 				cbRan := cb != nil && cs.cbCall == nil
@@ -1469,17 +1503,6 @@ func exec(e *lp.Exec) {
 					cs.v.Unlock()
 					if wireAfter <= wireBefore {
 						orc("c04-progress", "EPOLLOUT with kernel room (%d bytes) and a backlog of %d bytes: nothing was transmitted", ans[first].N, before)
-					}
-				}
-				// ET reports writability again only after the kernel refused a write: flush must not
-				// give up on a backlog before it has seen EAGAIN (no data callback ran, so the script
-				// bookkeeping is flush's alone)
-				if cs.mode == "et" && evs&syscall.EPOLLOUT != 0 && !cbRan && before > 0 {
-					post := cs.c.VerifWriteState(false)
-					used := len(ans) - left
-					refused := calls > int64(used) || (used > 0 && ans[used-1].Err == syscall.EAGAIN)
-					if !post.Closed && len(post.Items) > 0 && !refused {
-						orc("c04-et-lost-edge", "mode=et: flush returned with %d items queued after %d write calls none of which was refused (EAGAIN): no further EPOLLOUT edge is due", len(post.Items), calls)
 					}
 				}
 				e.Count("events", deliv)
